@@ -91,7 +91,10 @@ def check_once(case, cer):
         fail("aborted", f"validation was aborted by the invalid expression: {faulted!r}")
     if not baseline.ok:
         if not baseline.is_a(NotImplementedError):
-            raise AssertionError(f"baseline run raised {baseline!r}")
+            # neither a result nor the documented NotImplementedError: validation aborts for an AHB of valid expressions
+            # (with 'Kann' at the nodes that got an invalid expression) - nothing the differential oracle can build on
+            fail("aborted", f"validation of the AHB with 'Kann' at the faulted nodes (all expressions valid) raised {baseline!r}; "
+                 f"the faulted run gave {str(faulted)[:200]}")  # fmt: skip
         info["nie"] = True
         if faulted.ok or not faulted.is_a(NotImplementedError):
             fail("differs", f"with 'Kann' at the faulted nodes the run raises NotImplementedError, the faulted run gave {str(faulted)[:300]}")
